@@ -681,3 +681,363 @@ Proof.
   - assert (E : utc_to_wall z b = L) by lia. rewrite E in Hf. specialize (Hf HL).
     unfold fold_of in Hf. apply negb_false_iff in Hf. rewrite E in Hf. unfold ts0. lia.
 Qed.
+
+(* ------------------------------------------------------------------------------------ *)
+(* 7. the stepping loops of _period_windows_with_dt, period by period *)
+From CG Require Import Proofs.MetricsCivil.
+Ltac Zify.zify_post_hook ::= Z.to_euclidean_division_equations.   (* lia: division and modulo by constants *)
+
+Definition unit_of_period (p : period) : Z := match p with PHour => 3600 | _ => DAY end.
+
+Lemma dt_ymd_wall w : dt_ymd (w_year w) (w_month w) (w_day w) = wall_day w * DAY.
+Proof. unfold dt_ymd, w_year, w_month, w_day, mk_wall. rewrite civil_roundtrip. lia. Qed.
+
+Lemma wall_day_mul d : wall_day (d * DAY) = d.
+Proof. unfold wall_day, DAY. lia. Qed.
+
+Lemma day_multiple c : c mod DAY = 0 -> c = wall_day c * DAY.
+Proof. unfold wall_day, DAY. lia. Qed.
+
+(* first value of [current]: a period boundary at or before the wall clock of the range start *)
+Lemma snap_hour w :
+  let c := dt_ymdh (w_year w) (w_month w) (w_day w) (w_hour w) in c mod 3600 = 0 /\ c <= w.
+Proof.
+  cbv zeta. unfold dt_ymdh, w_year, w_month, w_day, w_hour, mk_wall. rewrite civil_roundtrip.
+  unfold wall_day, wall_sod, DAY. lia.
+Qed.
+Lemma snap_day w : let c := dt_ymd (w_year w) (w_month w) (w_day w) in c mod DAY = 0 /\ c <= w.
+Proof. cbv zeta. rewrite dt_ymd_wall. unfold wall_day, DAY. lia. Qed.
+Lemma snap_week w :
+  let c := dt_ymd (w_year w) (w_month w) (w_day w) - weekday (wall_day w) * DAY in c mod DAY = 0 /\ c <= w.
+Proof. cbv zeta. rewrite dt_ymd_wall. unfold weekday, wall_day, DAY. lia. Qed.
+Lemma snap_month w : let c := dt_ymd (w_year w) (w_month w) 1 in c mod DAY = 0 /\ c <= w.
+Proof.
+  cbv zeta. unfold dt_ymd, w_year, w_month, year_of, month_of, mk_wall.
+  pose proof (civil_facts (wall_day w)) as F. destruct (civil_from_days (wall_day w)) as [[y m] dd].
+  cbn [fst snd]. destruct F as (_ & _ & _ & _ & _ & F & _). unfold wall_day, DAY in *. lia.
+Qed.
+Lemma snap_year w : let c := dt_ymd (w_year w) 1 1 in c mod DAY = 0 /\ c <= w.
+Proof.
+  cbv zeta. unfold dt_ymd, w_year, year_of, mk_wall.
+  pose proof (civil_facts (wall_day w)) as F. destruct (civil_from_days (wall_day w)) as [[y m] dd].
+  cbn [fst snd]. destruct F as (_ & _ & _ & _ & _ & _ & F). unfold wall_day, DAY in *. lia.
+Qed.
+
+(* every step lands on a boundary again and moves forwards *)
+Lemma step_hour c : c mod 3600 = 0 -> next_hour c mod 3600 = 0 /\ c < next_hour c.
+Proof. unfold next_hour. lia. Qed.
+Lemma step_day c : c mod DAY = 0 -> next_day c mod DAY = 0 /\ c < next_day c.
+Proof. unfold next_day, DAY. lia. Qed.
+Lemma step_week c : c mod DAY = 0 -> next_week c mod DAY = 0 /\ c < next_week c.
+Proof. unfold next_week, DAY. lia. Qed.
+Lemma step_month c : c mod DAY = 0 -> next_month c mod DAY = 0 /\ c < next_month c.
+Proof.
+  intros Hc. pose proof (day_multiple c Hc) as Ec.
+  unfold next_month, dt_ymd, w_year, w_month, year_of, month_of, mk_wall.
+  set (d := wall_day c) in *.
+  pose proof (civil_facts d) as F. destruct (civil_from_days d) as [[y m] dd].
+  cbn [fst snd]. destruct F as (_ & _ & _ & F & _). unfold next_month_start in F.
+  destruct (m =? 12); unfold DAY in *; lia.
+Qed.
+Lemma step_year c : c mod DAY = 0 -> next_year c mod DAY = 0 /\ c < next_year c.
+Proof.
+  intros Hc. pose proof (day_multiple c Hc) as Ec.
+  unfold next_year, dt_ymd, w_year, year_of, mk_wall.
+  set (d := wall_day c) in *.
+  pose proof (civil_facts d) as F. destruct (civil_from_days d) as [[y m] dd].
+  cbn [fst snd]. destruct F as (_ & _ & _ & _ & F & _). unfold DAY in *. lia.
+Qed.
+
+(* one stepping loop under the zone hypothesis *)
+Lemma loop_cover u z next a b c0 fuel ws :
+  zone_wf u z = true ->
+  (forall c, c mod u = 0 -> next c mod u = 0 /\ c < next c) ->
+  (utc_to_wall z b mod u = 0 -> fold_of z b = false) ->
+  c0 mod u = 0 /\ c0 <= utc_to_wall z a ->
+  win_loop fuel z next c0 (utc_to_wall z b) = Some ws ->
+  exists s0, chain ws s0 /\ s0 <= a /\ b <= chain_end ws s0.
+Proof.
+  intros Hz Hstep Hend [P0 Hle] H. exists (ts0 z c0).
+  apply (win_loop_cover z (fun c => c mod u = 0) next
+           (fun c Hc => proj1 (Hstep c Hc)) (fun c Hc => proj2 (Hstep c Hc))
+           (fun L t HL => zone_wf_G1 u z L t Hz HL) (fun L HL => zone_wf_G3 u z L Hz HL)
+           a b c0 fuel ws P0 Hle); [|exact H].
+  intros L HL. apply (zone_wf_G2_end u z b L Hz HL Hend).
+Qed.
+
+(* Period windows form a chain of forward-running windows reaching over the query range.
+   Hypotheses: the zone table is well formed for the stepping unit (hour: 3600, otherwise 86400), and
+   the range end is not the second showing of a period boundary (finding M3).
+   The conclusion is about the windows the model computes when its loop does not run out of fuel
+   (out-of-fuel is a distinguishable result that the correspondence would flag). *)
+Theorem windows_cover_range z a b p ws :
+  zone_wf (unit_of_period p) z = true -> a < b ->
+  (utc_to_wall z b mod unit_of_period p = 0 -> fold_of z b = false) ->
+  period_windows_dt z a b p = Some ws ->
+  exists s0, chain ws s0 /\ s0 <= a /\ b <= chain_end ws s0.
+Proof.
+  intros Hz Hab Hend. unfold period_windows_dt. replace (a >=? b) with false by lia.
+  destruct p; cbn [unit_of_period] in *.
+  - apply loop_cover with (u := 3600); auto using step_hour, snap_hour.
+  - apply loop_cover with (u := DAY); auto using step_day, snap_day.
+  - apply loop_cover with (u := DAY); auto using step_week, snap_week.
+  - apply loop_cover with (u := DAY); auto using step_month, snap_month.
+  - apply loop_cover with (u := DAY); auto using step_year, snap_year.
+  - intros H; inversion H; subst. exists a. cbn [chain chain_end]. repeat split; lia.
+Qed.
+
+(* ... hence the per-period measures add up to the measure of the range *)
+Theorem C13_additivity_windows z a b p ws evs :
+  zone_wf (unit_of_period p) z = true -> a < b ->
+  (utc_to_wall z b mod unit_of_period p = 0 -> fold_of z b = false) ->
+  period_windows_dt z a b p = Some ws ->
+  sumZ (map (spec_total evs a b) ws) = measure evs a b.
+Proof.
+  intros Hz Hab Hend H. destruct (windows_cover_range z a b p ws Hz Hab Hend H) as (s0 & Hc & H1 & H2).
+  apply (C13_additivity_chain evs a b ws s0 Hc H1 H2). lia.
+Qed.
+
+(* an empty or reversed window contributes nothing, in the model as in the spec *)
+Lemma total_step_empty ws we : we <= ws -> forall l acc, fold_left (total_step ws we) l acc = acc.
+Proof.
+  intros H. induction l as [|i r IH]; intros acc; [reflexivity|]. cbn [fold_left]. rewrite IH.
+  unfold total_step. destruct (st i), (en i); try reflexivity.
+  replace (Z.max z ws <? Z.min z0 we) with false by lia. reflexivity.
+Qed.
+
+Lemma total_duration_empty tl ws we : we <= ws -> total_duration_ tl ws we = 0.
+Proof. intros H. unfold total_duration_. apply total_step_empty, H. Qed.
+
+(* the rows total_duration(period=p) returns for a stored timeline: every value is the measure of the
+   source's coverage inside its period clipped to the range, and the values add up to the measure of
+   the whole range *)
+Definition win_bounded (w : win) : Prop := let '(_, s, e) := w in NEG_INF < s /\ e < POS_INF.
+
+Theorem C13_total_duration_rows z evs a b p ws :
+  Forall wf_ivl evs -> NEG_INF < a -> a < b -> b < POS_INF ->
+  zone_wf (unit_of_period p) z = true ->
+  (utc_to_wall z b mod unit_of_period p = 0 -> fold_of z b = false) ->
+  period_windows_dt z a b p = Some ws -> Forall win_bounded ws ->
+  let vals := map (fun w : win => let '(_, s, e) := w in total_duration_ (cached_timeline (Stored evs) a b) s e) ws in
+  vals = map (spec_total evs a b) ws /\ sumZ vals = measure evs a b.
+Proof.
+  intros Hwf A1 A2 A3 Hz Hend H Hb. cbv zeta.
+  destruct (windows_cover_range z a b p ws Hz A2 Hend H) as (s0 & Hc & H1 & H2).
+  assert (E : map (fun w : win => let '(_, s, e) := w in
+                                  total_duration_ (cached_timeline (Stored evs) a b) s e) ws =
+              map (spec_total evs a b) ws).
+  { clear H1 H2 H. revert s0 Hc. induction ws as [|[[L s] e] r IH]; intros s0 Hc; [reflexivity|].
+    destruct Hc as (-> & Hse & Hr). inversion Hb as [|? ? Hw Hb']; subst.
+    change (NEG_INF < s0 /\ e < POS_INF) in Hw. destruct Hw as [B1 B2]. cbn [map]. f_equal.
+    - unfold spec_total, wlo, whi. destruct (Z_lt_le_dec s0 e) as [Hlt|Hge].
+      + apply total_is_measure_cached; assumption.
+      + rewrite total_duration_empty by lia. symmetry. apply measure_empty. lia.
+    - apply (IH Hb' e Hr). }
+  split; [exact E|]. rewrite E. apply (C13_additivity_chain evs a b ws s0 Hc H1 H2). lia.
+Qed.
+
+(* ------------------------------------------------------------------------------------ *)
+(* 8. the oracle's window check implies additivity: whatever windows an implementation returns, if
+      they pass Spec windows_ok then the per-window measures add up to the measure of the range *)
+
+Lemma last_end_cons w r : r <> [] -> last_end (w :: r) = last_end r.
+Proof.
+  intros Hr. unfold last_end. cbn [rev].
+  destruct (rev r) as [|x l] eqn:E.
+  - exfalso. apply Hr. apply (f_equal (@rev win)) in E. rewrite rev_involutive in E. exact E.
+  - reflexivity.
+Qed.
+
+Lemma chain_end_last ws : ws <> [] -> forall s0, chain_end ws s0 = last_end ws.
+Proof.
+  induction ws as [|[[L s] e] r IH]; intros Hne s0; [congruence|].
+  cbn [chain_end]. destruct r as [|w r'].
+  - reflexivity.
+  - rewrite last_end_cons by discriminate. apply IH. discriminate.
+Qed.
+
+Lemma windows_ok_chain z p : forall ws,
+  forallb (window_ok z p) ws = true -> contiguous p ws = true -> chain ws (first_start ws).
+Proof.
+  induction ws as [|[[L s] e] r IH]; intros Hw Hc; [exact I|].
+  cbn [forallb] in Hw. apply andb_prop in Hw as [Hw1 Hw2].
+  cbn [chain first_start]. split; [reflexivity|]. split.
+  - unfold window_ok in Hw1. lia.
+  - destruct r as [|[[L' s'] e'] r']; [exact I|].
+    cbn [contiguous] in Hc. apply andb_prop in Hc as [Hc Hc3]. apply andb_prop in Hc as [Hc1 Hc2].
+    specialize (IH Hw2 Hc3). cbn [first_start] in IH. replace e with s' by lia. exact IH.
+Qed.
+
+Theorem windows_ok_additive z p a b ws evs :
+  windows_ok z p a b ws = true -> a < b ->
+  sumZ (map (spec_total evs a b) ws) = measure evs a b.
+Proof.
+  intros H Hab. unfold windows_ok in H. replace (a >=? b) with false in H by lia.
+  assert (G : forall ws', ws' <> [] ->
+              forallb (window_ok z p) ws' && contiguous p ws' && (first_start ws' <=? a) &&
+              (b <=? last_end ws') && forallb (meets a b) ws' = true ->
+              sumZ (map (spec_total evs a b) ws') = measure evs a b).
+  { intros ws' Hne H'. apply andb_prop in H' as [H' _]. apply andb_prop in H' as [H' H4].
+    apply andb_prop in H' as [H' H3]. apply andb_prop in H' as [H1 H2].
+    apply (C13_additivity_chain evs a b ws' (first_start ws') (windows_ok_chain z p ws' H1 H2)); try lia.
+    rewrite chain_end_last by exact Hne. lia. }
+  destruct p; try (destruct ws as [|w r]; [discriminate|apply G; [discriminate|exact H]]).
+  (* full *)
+  destruct ws as [|[[L s] e] [|w r]]; try discriminate.
+  cbn [map sumZ fold_right]. unfold spec_total, wlo, whi.
+  replace (Z.max a s) with a by lia. replace (Z.min b e) with b by lia. lia.
+Qed.
+
+(* ------------------------------------------------------------------------------------ *)
+(* 9. max_duration / min_duration: the loop returns an interval of the slice whose length is extreme
+      among the bounded intervals of the slice (None iff there is none) *)
+
+Definition blen (i : ivl) : option Z :=
+  match st i, en i with Some s, Some e => Some (e - s) | _, _ => None end.
+
+Definition ext_inv (fm : bool) (seen : list ivl) (acc : option ivl * option Z) : Prop :=
+  match acc with
+  | (None, None) => forall y, In y seen -> blen y = None
+  | (Some x, Some l) =>
+    In x seen /\ blen x = Some l /\
+    forall y d, In y seen -> blen y = Some d -> if fm then d <= l else l <= d
+  | _ => False
+  end.
+
+Lemma ext_step_inv fm seen acc i :
+  ext_inv fm seen acc -> ext_inv fm (seen ++ [i]) (ext_step fm acc i).
+Proof.
+  intros H. unfold ext_step. destruct (st i) as [s|] eqn:Es; [destruct (en i) as [e|] eqn:Ee|].
+  - assert (Bi : blen i = Some (e - s)) by (unfold blen; rewrite Es, Ee; reflexivity).
+    destruct acc as [[x|] [l|]]; cbn [snd ext_inv] in *; try contradiction.
+    + destruct H as (Hx & Bx & Hall).
+      assert (Keep : In x (seen ++ [i])) by (apply in_or_app; left; exact Hx).
+      assert (New : In i (seen ++ [i])) by (apply in_or_app; right; left; reflexivity).
+      destruct fm; cbn [andb negb].
+      * destruct (e - s >? l) eqn:C; cbn [ext_inv].
+        -- split; [exact New|]. split; [exact Bi|]. intros y d Hy By.
+           apply in_app_or in Hy as [Hy|[<-|[]]]; [specialize (Hall y d Hy By); cbn in Hall; lia|].
+           rewrite Bi in By. inversion By. lia.
+        -- split; [exact Keep|]. split; [exact Bx|]. intros y d Hy By.
+           apply in_app_or in Hy as [Hy|[<-|[]]]; [exact (Hall y d Hy By)|].
+           rewrite Bi in By. inversion By. lia.
+      * destruct (e - s <? l) eqn:C; cbn [ext_inv].
+        -- split; [exact New|]. split; [exact Bi|]. intros y d Hy By.
+           apply in_app_or in Hy as [Hy|[<-|[]]]; [specialize (Hall y d Hy By); cbn in Hall; lia|].
+           rewrite Bi in By. inversion By. lia.
+        -- split; [exact Keep|]. split; [exact Bx|]. intros y d Hy By.
+           apply in_app_or in Hy as [Hy|[<-|[]]]; [exact (Hall y d Hy By)|].
+           rewrite Bi in By. inversion By. lia.
+    + split; [apply in_or_app; right; left; reflexivity|]. split; [exact Bi|].
+      intros y d Hy By. apply in_app_or in Hy as [Hy|[<-|[]]].
+      * rewrite (H y Hy) in By. discriminate.
+      * rewrite Bi in By. inversion By. destruct fm; lia.
+  - assert (Bi : blen i = None) by (unfold blen; rewrite Es, Ee; reflexivity).
+    destruct acc as [[x|] [l|]]; cbn [ext_inv] in *; try contradiction.
+    + destruct H as (Hx & Bx & Hall). split; [apply in_or_app; left; exact Hx|]. split; [exact Bx|].
+      intros y d Hy By. apply in_app_or in Hy as [Hy|[<-|[]]]; [exact (Hall y d Hy By)|congruence].
+    + intros y Hy. apply in_app_or in Hy as [Hy|[<-|[]]]; [exact (H y Hy)|exact Bi].
+  - assert (Bi : blen i = None) by (unfold blen; rewrite Es; reflexivity).
+    destruct acc as [[x|] [l|]]; cbn [ext_inv] in *; try contradiction.
+    + destruct H as (Hx & Bx & Hall). split; [apply in_or_app; left; exact Hx|]. split; [exact Bx|].
+      intros y d Hy By. apply in_app_or in Hy as [Hy|[<-|[]]]; [exact (Hall y d Hy By)|congruence].
+    + intros y Hy. apply in_app_or in Hy as [Hy|[<-|[]]]; [exact (H y Hy)|exact Bi].
+Qed.
+
+Lemma ext_fold_inv fm : forall l seen acc,
+  ext_inv fm seen acc -> ext_inv fm (seen ++ l) (fold_left (ext_step fm) l acc).
+Proof.
+  induction l as [|i r IH]; intros seen acc H.
+  - rewrite app_nil_r. exact H.
+  - cbn [fold_left]. replace (seen ++ i :: r) with ((seen ++ [i]) ++ r) by (rewrite <- app_assoc; reflexivity).
+    apply IH, ext_step_inv, H.
+Qed.
+
+Theorem extremum_spec tl ws we fm :
+  match extremum_duration tl ws we fm with
+  | None => forall y, In y (tslice tl ws we) -> blen y = None
+  | Some x => In x (tslice tl ws we) /\
+              exists l, blen x = Some l /\
+                        forall y d, In y (tslice tl ws we) -> blen y = Some d -> if fm then d <= l else l <= d
+  end.
+Proof.
+  unfold extremum_duration.
+  pose proof (ext_fold_inv fm (tslice tl ws we) [] (None, None) (fun y Hy => match Hy with end)) as H.
+  cbn [app] in H. destruct (fold_left (ext_step fm) (tslice tl ws we) (None, None)) as [[x|] [l|]];
+    cbn [ext_inv fst] in *; try contradiction.
+  - destruct H as (Hx & Bx & Hall). split; [exact Hx|]. exists l. split; assumption.
+  - exact H.
+Qed.
+
+(* count_intervals counts what the slice returns (by definition of the model), and for a stored
+   timeline that is the number of events with an instant inside the window *)
+Lemma length_clip_all a b : forall l,
+  length (flat_map (clipW a b) l) = length (filter (fun i => Z.max (fstart i) (bnd_lo a) <? Z.min (fend i) (bnd_hi b)) l).
+Proof.
+  induction l as [|x r IH]; [reflexivity|]. cbn [flat_map filter]. rewrite app_length, IH.
+  unfold clipW. cbv zeta. destruct (Z.max (fstart x) (bnd_lo a) <? Z.min (fend x) (bnd_hi b)); reflexivity.
+Qed.
+
+Lemma filter_length_perm (f : ivl -> bool) l1 l2 :
+  Permutation l1 l2 -> length (filter f l1) = length (filter f l2).
+Proof.
+  induction 1 as [|x l l' _ IH|x y l|l l' l'' _ IH1 _ IH2]; cbn [filter].
+  - reflexivity.
+  - destruct (f x); cbn [length]; congruence.
+  - destruct (f x), (f y); reflexivity.
+  - congruence.
+Qed.
+
+Theorem count_is_hits evs ws we :
+  ws <= we -> count_ (Stored evs) ws we = Z.of_nat (length (filter (hits ws we) evs)).
+Proof.
+  intros H. unfold count_. f_equal. rewrite tslice_stored by exact H.
+  rewrite (clip_sweep_masks false _ (Some ws) (Some we)) by apply fetch_static_sorted_start.
+  rewrite length_clip_all. cbn [bnd_lo bnd_hi].
+  rewrite (proj1 (fetch_static_spec _ (Some ws) (Some we) (sl_build_sorted evs))).
+  rewrite filter_filter.
+  rewrite (filter_length_perm _ _ _ (sl_build_perm evs)).
+  f_equal. apply filter_ext. intros i. unfold hits, in_range. lia.
+Qed.
+
+(* ------------------------------------------------------------------------------------ *)
+(* 10. alignment: every window of the stepping loops begins at the instant the local clock reaches its
+       label, a multiple of the stepping unit (hour: minute = second = 0; otherwise: local midnight),
+       and ends at the instant the local clock reaches the next label *)
+
+Lemma reaches_ts0 u z L : zone_wf u z = true -> L mod u = 0 -> reaches z L (ts0 z L) = true.
+Proof.
+  intros Hz HL. unfold reaches. pose proof (zone_wf_G3 u z L Hz HL) as H3.
+  destruct (Z_lt_le_dec (utc_to_wall z (ts0 z L - 1)) L) as [Hlt|Hge]; [lia|].
+  pose proof (zone_wf_G1 u z L (ts0 z L - 1) Hz HL Hge). lia.
+Qed.
+
+Definition aligned_win (u : Z) (z : zone) (w : win) : Prop :=
+  let '(L, s, e) := w in
+  L mod u = 0 /\ reaches z L s = true /\ exists L', L' mod u = 0 /\ L < L' /\ reaches z L' e = true.
+
+Lemma win_loop_aligned u z next ew :
+  zone_wf u z = true ->
+  (forall c, c mod u = 0 -> next c mod u = 0 /\ c < next c) ->
+  forall ws fuel c, c mod u = 0 -> win_loop fuel z next c ew = Some ws -> Forall (aligned_win u z) ws.
+Proof.
+  intros Hz Hstep. induction ws as [|[[L s] e] r IH]; intros fuel c Hc H; [constructor|].
+  apply win_loop_head in H. destruct H as (-> & -> & -> & _ & fuel' & Hr).
+  destruct (Hstep c Hc) as [Hn Hlt]. constructor.
+  - cbn. split; [exact Hc|]. split; [apply (reaches_ts0 u); assumption|].
+    exists (next c). split; [exact Hn|]. split; [exact Hlt|]. apply (reaches_ts0 u); assumption.
+  - apply (IH fuel' (next c) Hn Hr).
+Qed.
+
+Theorem windows_aligned z a b p ws :
+  zone_wf (unit_of_period p) z = true -> p <> PFull ->
+  period_windows_dt z a b p = Some ws -> Forall (aligned_win (unit_of_period p) z) ws.
+Proof.
+  intros Hz Hp. unfold period_windows_dt. destruct (a >=? b); [intros H; inversion H; constructor|].
+  destruct p; cbn [unit_of_period] in *; try congruence.
+  - apply win_loop_aligned; auto using step_hour. apply snap_hour.
+  - apply win_loop_aligned; auto using step_day. apply snap_day.
+  - apply win_loop_aligned; auto using step_week. apply snap_week.
+  - apply win_loop_aligned; auto using step_month. apply snap_month.
+  - apply win_loop_aligned; auto using step_year. apply snap_year.
+Qed.
